@@ -167,6 +167,22 @@ func settle(base census, d time.Duration) census {
 	}
 }
 
+// settleConns: settle without the file descriptors (the scenario's peer is still up: its listener and accepted connections
+// are descriptors of this process too): no library goroutine, no client connection beyond the baseline.
+func settleConns(base census, d time.Duration) census {
+	deadline := time.Now().Add(d)
+	for {
+		c := takeCensus()
+		if len(c.diffLib(base)) == 0 && c.Persist <= base.Persist {
+			return c
+		}
+		if time.Now().After(deadline) {
+			return c
+		}
+		time.Sleep(2 * time.Millisecond)
+	}
+}
+
 // childState reports whether pid still exists ("" = gone, otherwise the state letter of /proc/<pid>/stat).
 func childState(pid int) string {
 	b, err := os.ReadFile(fmt.Sprintf("/proc/%d/stat", pid))
